@@ -108,6 +108,7 @@ struct QueueEngine : Engine
 			bws.push_back(bw); lats.push_back(lat);
 		}
 		p.cfg["aux_timers"] = rng.chance(0.25) ? 1 : 0;
+		p.cfg["stop_every"] = rng.chance(0.15) ? int64_t(rng.range(1, 4)) : 0;
 		// arrival process; predicted departures of hop 0 are used to place
 		// arrivals exactly on a departure instant now and then
 		int const nops = int(rng.range(1, tier ? 60 : 40));
@@ -224,7 +225,12 @@ struct QueueEngine : Engine
 			bool const aux = plan.c("aux_timers") != 0 && qp[0].lat_ns > 0;
 			asio::high_resolution_timer aux1(ios), aux2(ios);
 			size_t next = 0;
+			// now and then the program pauses the simulation (stop() from the handler that is about to hand packets to the
+			// first hop) and resumes it: whatever the hops arm in between has to be honoured after restart()
+			int64_t const stop_every = plan.c("stop_every");
+			int64_t injections = 0;
 			std::function<void()> inject_due = [&]() {
+				if (stop_every > 0 && (injections++ % stop_every) == 0) { sim.stop(); ctx.hit("stopped_before_injection"); }
 				int64_t const now = now_ns();
 				while (next < arr.size() && arr[next].t <= now)
 				{
@@ -261,7 +267,12 @@ struct QueueEngine : Engine
 				}
 			};
 			inject_due();
-			sim.run();
+			for (int round = 0; round < 100000; ++round)
+			{
+				sim.run();
+				if (!sim.stopped()) break;
+				sim.restart();
+			}
 			ctx.sim_ns = now_ns();
 
 			// per queue: arrivals = probe k, departures = probe k+1
